@@ -131,6 +131,14 @@ func HarnessC15ExportImport() {
 			EdgePoints: data.Points{{Type: data.PointTypeTombstone, Key: "0", Time: vInstant(19886, 0, 0, 0)}}})
 		vCover("c15: grandchild present")
 	}
+	if vParam("sibs", 0) == 1 && vBool() {
+		// a second child with its own points and a node-id reference to its sibling or to the top node
+		sref := []string{"c1", "t"}[vChoose(2)]
+		tree = append(tree, data.NodeEdge{ID: "s1", Parent: "t", Type: "y",
+			Points:     data.Points{c15Pt("v", "0"), {Type: data.PointTypeNodeID, Key: "0", Time: vInstant(19886, 0, 0, 0), Text: sref}},
+			EdgePoints: data.Points{{Type: data.PointTypeTombstone, Key: "0", Time: vInstant(19886, 0, 0, 0)}, c15Pt("role", "0")}})
+		vCover("c15: sibling present")
+	}
 	if vBool() {
 		// the export target was moved here from group gA: its old placement is
 		// tombstoned and comes first in the store's reply
